@@ -42,12 +42,6 @@ def room_tokens(cfg, radi, din, dout):
     return tok
 
 
-def n_coincident_pairs(radi):
-    """number of visible pairs that take the Nusselt branch (evidence only)"""
-    pts = radi.patches_points
-    return sum(1 for (a, b) in radi._visible_patches if G._coincidence_check(pts[b], pts[a]))
-
-
 def full_case(cfg, src, recs, c, dt, dur, K, direct=True, info=None):
     """returns (mismatches, max_ulp, rejected); [info] (a dict) receives the number of visible pairs,
     how many of them took the Nusselt branch (computed by the model), and the largest relative
